@@ -25,6 +25,11 @@ def run(ctx):
         lc.simulate_and_replay(ctx, name, lc.STORE_ACTS, num, 14, ctx.seed + 11, label="store")
     for name in ["Beam", "Elastic3D", "WeakForms", "HyperElastic", "PhaseField"]:
         lc.simulate_and_replay(ctx, name, lc.STORE_ACTS, num // 3, 14, ctx.seed + 12, label="store")
+    # simulations whose stored iterations carry internal variables (InElastic): spec/InelasticCommit.tla, behaviours with SaveIter / SetIter
+    # in every order replayed with content hashes of displacement and internal state
+    from harness.props import c19
+
+    c19.commit_section(ctx, 80 if ctx.thorough else 24, ctx.seed + 31, label="inelastic_store")
     # direction B: Save_Iter / Set_Iter events recorded while the repository's tests run, judged by Trace_Lifecycle.tla (AppendOnly, PureRead)
     from harness import repo_trace
 
